@@ -6,6 +6,7 @@ prop(
               "endpoint x required, against per-upstream request logs of fault-injecting fake Prometheus servers; plus rapid-generated rules "
               "through every online check against an all-unavailable failover group",
     level="fault_enumeration",
+    exhaustive_when=dict(tier="thorough", run="table_cells_run", total="table_cells_total"),
     design_ref="DESIGN.md 2/C15",
     stages=[
         dict(run="^TestPropFailover$",
@@ -34,8 +35,7 @@ prop(
                "response is accepted as either unavailable (next upstream contacted) or as a final error of that upstream: the statement lists connection "
                "errors, timeouts and 5xx and does not place a connection that breaks mid-body. 404 on config/flags/metadata is pint's separate "
                "'unsupported API' feature: only no-crash is checked there (class unsupported-api:*). rule/link is online but talks to the linked URLs, not "
-               "to a Prometheus server, and is not part of part 2. coverage.exhaustive stays false in the evidence file (vstat has no switch for it); the "
-               "thorough tier nevertheless runs the complete table - see counters table_cells_total / table_cells_run (equal when the whole table ran).",
+               "to a Prometheus server, and is not part of part 2. coverage.exhaustive is set by the driver for the thorough tier when counters table_cells_run == table_cells_total (the whole fault table ran).",
     assumptions=["unavailability = {connection refused, timeout, HTTP 500/503 with unparsable body, JSON errorType server_error}; query-caused = {bad_data, execution, 404 on query endpoints}",
                  "pint-side timeout is 20 ms only on upstreams in timeout mode, 30 s elsewhere, so a busy machine cannot turn a healthy upstream into a timeout",
                  "a call that takes more than 120 s (part 2: 180 s) is inconclusive, never a violation",
